@@ -29,7 +29,8 @@ class Build:
         self.rnd = random.Random(seed)
 
     def prelude(self, p):
-        return [{"op": "set_fallbacks", "v": True}]
+        # observers: what follows reset_state is compared with the base run including the notifications
+        return [{"op": "observe", "obs": 1, "var": v} for v in (p.get("ints") or [])[:3]] + [{"op": "set_fallbacks", "v": True}]
 
     def cases(self, ex, trails, batch):
         out = []
@@ -42,7 +43,7 @@ class Build:
         gl = ex.header["globals"] or ["nosuch"]
         fns = [f["name"] for f in ex.prog.get("functions", [])] or ["nosuch"]
         for ci in range(4 if self.tier == "quick" else 12):
-            hist = [{"op": "new"}, {"op": "set_fallbacks", "v": True}]
+            hist = [o for o in ex.paths[paths[0]]["ops"] if o["op"] in ("new", "observe", "set_fallbacks")]
             for _ in range(r.randint(4, 14)):
                 c = r.random()
                 if c < 0.3:
@@ -70,7 +71,7 @@ class Build:
                 else:
                     hist.append({"op": "cont_max", "cls": "free"})
             q = r.choice(paths)
-            after = [o for o in ex.paths[q]["ops"] if o["op"] not in ("new", "set_fallbacks")]
+            after = [o for o in ex.paths[q]["ops"] if o["op"] not in ("new", "set_fallbacks", "observe")]
             script = hist + [{"op": "cont", "cls": "free", "note": "finish any unfinished slice"}, {"op": "reset"}] + after
             out.append(runner.CaseSpec(
                 key="%s|hist%d|%s" % (ex.prog["id"], ci, list(q)), scenario=common.scenario(0, ex.prog, script), root=root,
